@@ -13,7 +13,10 @@ EXTRA = {"C01-3": ["C12"], "C10-3": ["C12"], "C07-1": ["C04"], "C17-1": ["C02"],
          "C01-6": ["C12", "C09"], "C04-6": ["C12", "C09"], "C18-6": ["C12"], "C07-4": ["C12"], "C09-5": ["C12"], "C18-4": ["C03", "C01"],
          "C04-4": ["C07", "C03"], "C07-5": ["C04"], "C13-5": ["C09"], "C10-5": ["C12"], "C01-4": ["C18"],
          "C09-7": ["C12"], "C09-9": ["C12"], "C18-7": ["C12", "C09"], "C04-9": ["C12", "C09"], "C20-8": ["C12"], "C10-7": ["C07"], "C07-9": ["C10"],
-         "C07-7": ["C03"], "C19-7": ["C12"], "C01-8": ["C09"], "C18-8": ["C01"], "C13-7": ["C09"], "C10-8": ["C09"]}
+         "C07-7": ["C03"], "C19-7": ["C12"], "C01-8": ["C09"], "C18-8": ["C01"], "C13-7": ["C09"], "C10-8": ["C09"],
+         "C01-12": ["C12"], "C08-10": ["C12", "C09"], "C18-10": ["C12", "C10"], "C18-11": ["C01", "C17"], "C17-12": ["C01"], "C17-10": ["C03"],
+         "C17-11": ["C10"], "C13-12": ["C12", "C09"], "C13-11": ["C09"], "C10-10": ["C12"], "C12-12": ["C10"], "C19-12": ["C09"], "C19-11": ["C09"],
+         "C14-11": ["C09", "C12"], "C03-11": ["C01"], "C03-12": ["C02", "C17"], "C07-10": ["C04"], "C07-11": ["C03"], "C02-11": ["C03"]}
 
 
 def run(name):
